@@ -134,7 +134,7 @@ class Feed:
 
 def expect_of(table):
     return {'rows': [{k: r[k] for k in ('icao', 'callsign', 'lat', 'lon', 'heading', 'alt', 'fpm', 'speed', 'dist')}
-                     | {'msgs': str(r['msgs'])} for r in table['rows']],
+                     | {'msgs': str(r['msgs']), 'raw': r.get('raw')} for r in table['rows']],
             'n': table['len'], 'added': table['added_events'], 'most': table['max_simultaneous']}
 
 
@@ -250,21 +250,30 @@ def compare_table(tag, snap, exp, probs, facts):
         probs.append('%s:no-table' % tag)
         return
     facts['rows_' + tag] = len(t['rows'])
+    if t.get('missing_cols'):
+        probs.append('%s:columns-not-shown=%s' % (tag, ','.join(t['missing_cols'])))
+        return
     if tab_n != exp['n'] or t['title_n'] != exp['n']:
         probs.append('%s:title=%s/%s want %s' % (tag, tab_n, t['title_n'], exp['n']))
-    # the table shows as many rows as fit: terminal height minus margin (2), tab bar (3), borders (2), header + spacer (2)
-    capacity = max(0, snap.get('size', [0, 24])[1] - 9)
+    # the table shows as many rows as fit between the header margin and the bottom border (read off the screen)
+    capacity = t['capacity']
+    if len(exp['rows']) > 0 and capacity < 3:
+        probs.append('%s:vacuous-table-capacity=%d' % (tag, capacity))
     want_rows = min(len(exp['rows']), capacity)
     if len(t['rows']) != want_rows:
         probs.append('%s:rows=%d want %d' % (tag, len(t['rows']), want_rows))
     for got, want in zip(t['rows'], exp['rows']):
         for f in e4screen.FIELDS:
             w = t['col'][f][1]
-            wv = want[f]
-            if len(wv) > w:
-                wv = wv[:w].strip()     # cell wider than its column: the column-width prefix
-            if got[f] != wv:
-                probs.append('%s:cell %s.%s=%r want %r' % (tag, want['icao'], f, got[f], wv))
+            cands = [want[f]]
+            raw = (want.get('raw') or {}).get(f)
+            if raw is not None:
+                # a coordinate / distance may be shown with any number of decimals: it has to be the tracker's value
+                # rounded to the decimals shown
+                cands += ['%.*f' % (k, raw) for k in range(0, 7)]
+            cands = [(c[:w].strip() if len(c) > w else c) for c in cands]   # wider than the column: its prefix
+            if got[f] not in cands:
+                probs.append('%s:cell %s.%s=%r want %r' % (tag, want['icao'], f, got[f], cands[0]))
 
 
 def judge(script, obs):
